@@ -112,7 +112,7 @@ CHECKS["C02"] = {
 }
 CHECKS["C03"] = {
     "jobs": [job("h_hist-" + d, 4000, 2, 40000, 4, fuzz_secs=300, fuzz_procs=2, env={"VERIF_TAPE_SCALE": "12"}) for d in HIST_Q] +
-            [job("h_hist-" + d, 4000, 2, 40000, 4, env={"VERIF_TAPE_SCALE": "12"}) for d in ["interval", "sdbm", "soct"]],
+            [job("h_hist-" + d, 4000, k, 40000, 4, env={"VERIF_TAPE_SCALE": "12"}) for d, k in [("interval", 2), ("sdbm", 4), ("soct", 3)]],
     "rule": "operation histories of 3-40 steps over 6 abstract values and 2-5 ints (+64-bit int, booleans for boolean domains, 3 fresh names): assign, "
             "arithmetic/bitwise/cast apply, select, assume (1-2 constraints, non-unit coefficients, ==, !=, <), boolean operations, weak_assign, "
             "forget/project/rename/expand, join, meet, widening (with thresholds), narrowing of decreasing pairs, copies, queries; every value "
